@@ -225,19 +225,9 @@ def rule_set(ctx, R):
 
 def auth_store_context(ctx, fn, b, bbi):
     # (c) leaving Blocked: dominated by a discriminant test of ConnectionState == Blocked
-    dv = ctx.prog.variant_discr("network::connection::ConnectionState", "Blocked")
-    for i, bb in enumerate(b.bbs):
-        t = bb["t"]
-        if t["k"] != "switch":
-            continue
-        dl = op_local(t["d"])
-        for st in bb["s"]:
-            if st["k"] == "=" and st["l"]["l"] == dl and st["r"]["k"] == "discr":
-                fields = [e["f"] for e in st["r"]["p"]["p"] if isinstance(e, dict) and "f" in e]
-                if fields and fields[-1] == "network::connection::Connection.state":
-                    ts = dict(t["ts"])
-                    if dv in ts and bbi in cfg.edge_dom_set(b, i, ts[dv]):
-                        return "leaving Blocked state"
+    import rules_block
+    if bbi in rules_block.blocked_test_regions(ctx, b):
+        return "leaving Blocked state"
     # (a) accept: dominated by the password-none edge
     for (a, asw, a_set, a_none) in password_tests(b):
         if bbi in cfg.edge_dom_set(b, asw, a_none):
